@@ -15,10 +15,9 @@ import (
 	"verif/scn"
 )
 
-const (
-	runWallLimit = 90 * time.Second
-	runRSSLimit  = 4 << 30
-)
+var runWallLimit = 90 * time.Second
+
+const runRSSLimit = 4 << 30
 
 type runOut struct {
 	idx   int
@@ -27,6 +26,8 @@ type runOut struct {
 	infra string // infrastructure trouble: the run is no verdict
 	races int
 	wall  time.Duration
+
+	retried bool
 }
 
 // rssOf reads the resident set size of a process from /proc.
@@ -326,7 +327,14 @@ func (b *build) runMany(dir string, n, par int, gen func(i int) *scn.Scenario, d
 				started++
 				mu.Unlock()
 				// every worker reuses its own file names: no pile-up of files
-				r := b.execRun(dir, w, gen(i), execOpts{})
+				sc := gen(i)
+				r := b.execRun(dir, w, sc, execOpts{})
+				if strings.HasPrefix(r.infra, "infra_timeout") {
+					// a loaded machine, not the code under test, may be the cause:
+					// once more before the run counts as infrastructure trouble
+					r = b.execRun(dir, w, sc, execOpts{})
+					r.retried = true
+				}
 				r.idx = i
 				mu.Lock()
 				sink(r)
